@@ -41,7 +41,8 @@ class InjectedFault(Exception):
 # the callbacks of a real user raise all sorts of exception types; the explainers must not swallow any of them
 FAULT_TYPES = [InjectedFault] + [type("Injected" + b.__name__, (InjectedFault, b), {}) for b in
                                  (ValueError, KeyError, IndexError, RuntimeError, TypeError, ZeroDivisionError, AttributeError,
-                                  ArithmeticError, LookupError, OSError)]
+                                  ArithmeticError, LookupError, OSError, StopIteration, AssertionError, NotImplementedError,
+                                  OverflowError, FloatingPointError, UnicodeError, EOFError, NameError, TimeoutError)]
 
 
 class Clock:
@@ -113,6 +114,16 @@ class Models:
             for j, n in enumerate(self.names):
                 tot = tot + (j + 1) * x[n]
             return {"output": Q(tot) if self.exact else float(tot)}
+        if k == "array1":         # user model returning NumPy arrays of shape (1,) as dict values (e.g. {'output': est.predict(X)})
+            import numpy as np
+            return {"output": np.array([(h("m", c) % 1000) / 8.0])}
+        if k == "positional":     # reads the dict by POSITION (like a wrapper without feature_names): key order matters
+            tot = 0
+            for j, v in enumerate(x.values()):
+                if isinstance(v, (str, type(None))):
+                    v = h("p", repr(v)) % 97          # non-numeric values (legal for dict-based models) enter through a hash
+                tot = tot + (j + 1) * (j + 2) * v
+            return {"output": Q(tot) if self.exact else float(tot)}
         raise ValueError(k)
 
     def __call__(self, x):
@@ -145,6 +156,12 @@ class Losses:
             for l, v in p.items():
                 tot = tot + (y - v) * (y - v)
             return tot
+        if self.kind == "sqf":    # squared error returned as a plain float whatever the prediction values are
+            import numpy as np
+            tot = 0.0
+            for l, v in p.items():
+                tot += float(np.sum((y - np.asarray(v, dtype=float)) ** 2))
+            return tot
         if self.kind == "abs":
             tot = 0
             for l, v in p.items():
@@ -168,8 +185,8 @@ class UniqueStream:
     """Observations whose every feature value is globally unique, so a model input identifies the
     stored observation each value came from.  value = base + 1000*t + j  (exactly representable)."""
 
-    def __init__(self, names, seed=0, exact=False, ykind="int"):
-        self.names, self.rnd, self.t, self.exact, self.ykind = list(names), random.Random(seed), 0, exact, ykind
+    def __init__(self, names, seed=0, exact=False, ykind="int", extras=()):
+        self.names, self.rnd, self.t, self.exact, self.ykind = list(names) + list(extras), random.Random(seed), 0, exact, ykind
         self.origin = {}
         # every even-indexed feature carries ONE falsy value (0, 0.0 or False) at some early time: still unique per
         # feature, and legal input ("unusual input" class: zero / boolean feature values)
